@@ -137,3 +137,25 @@ def check_sat_count_uses(ctx, F, rule="E-POST.satcount"):
                "%s (%s): cache.clear_if_invalid(manager, vars) must dominate the counting recursion; a stale count "
                "cache (after gc/reordering or for another `vars`) is consulted otherwise" % (F.nice(fid), F.where(fid)))
     ctx.floor(rule, "sat_count_edge implementations with a cache-validity check", n, 3)
+
+
+def check_count_cache_users(ctx, F, rule="E-POST.mapusers"):
+    """The keys of `SatCountCache::map` are private to the diagram kind that filled it (BCDDs fold the complement tag
+    into the key: `node_id | tag << 31`).  Only `SatCountCache`'s own methods and the kinds' `sat_count_edge::inner`
+    may touch the map; generic code that looks counts up by plain `node_id` (e.g. to avoid a call) reads the count of
+    the complemented function for a plain edge."""
+    import edm
+    ADT = "oxidd_core::util::SatCountCache"
+    users = []
+    for fid, m in sorted(F.mir.items()):
+        if fid.startswith(("oxidd_test_utils", "oxidd_cli")):
+            continue
+        if "map" in edm.fields_of(m, ADT):
+            users.append(fid)
+    ok_pat = re.compile(r"^oxidd_core::util::.*SatCountCache|::sat_count_edge::inner$|::sat_count_edge$")
+    extra = [F.nice(f) for f in users if not ok_pat.search(F.nice(f)) and not ok_pat.search(f)]
+    ctx.ob(rule, rule + ":SatCountCache.map", not extra and len(users) >= 4,
+           ("SatCountCache::map is accessed by %s: its keys are specific to the diagram kind's sat_count_edge (complement "
+            "tags are folded into them), so generic code reads the wrong entry" % extra) if extra else
+           "%d functions touch SatCountCache::map, all of them SatCountCache methods or sat_count_edge::inner" % len(users))
+    return len(users)
